@@ -7,7 +7,9 @@
 // A text comes with a tag "<family>" and an expectation: "R" when protojson
 // must refuse it by construction (unknown field, duplicate field, wrong JSON
 // type, uint32 out of range, unknown enum name, bad base64 character, JSON
-// syntax), "" when the verdict is left to the comparison of model and reader.
+// syntax), "A" when protojson must ACCEPT it by construction although it is not
+// JSON (the dangling exponent marker, see the dangling-e faults), "" when the
+// verdict is left to the comparison of model and reader.
 package ksjson
 
 import (
@@ -111,8 +113,14 @@ func U32Text(r *hx.Rng, mode int, v uint32) string {
 		case 0:
 			return d + hx.PickS(r, []string{"e0", "E0", "e+0", "E-0", "e00"})
 		case 1:
+			if v == 0 { // "00e-1" would be a leading zero: not JSON
+				return "0e-1"
+			}
 			return d + "0e-1"
 		case 2:
+			if v == 0 {
+				return "0E-3"
+			}
 			return d + "000E-3"
 		case 3:
 			if v > 0 { // 0.<digits>e<len>
@@ -433,6 +441,37 @@ func Faults() []Fault {
 			return hx.PickS(r, []string{q(","), q(" 13"), q("]"), q("}garbage"), q(":"), q(`\t3`), q("\u200b"), q("\ufeff"), q(`\ufeff`),
 				q(` \"`), q("\u00e9"), q(".0 x"), q("e0,e0"), q(" \u00a0x"), d + ".0", d + "e0", d + "00e-2"}), ""
 		})},
+		// protobuf-go leniency (NOT JSON, not a Tink rule): parseNumber cuts "<int>[.<frac>]e" off as a Number
+		// token when a delimiter byte follows, and Token.Uint / Token.Int (parseNumberParts) ignore the bare
+		// marker: the field reads as the number.  In the string form the inner decoder sees the same token
+		// when a delimiter follows inside the string ("5e," "5e x"), not at its end ("5e").
+		{"dangling-e-u32", replaceIn("u32", func(m *Member, r *hx.Rng) (string, string) {
+			d := strconv.FormatUint(uint64(m.U32), 10)
+			q := func(b string) string { return "\"" + d + b + "\"" }
+			return hx.PickS(r, []string{d + "e", d + "E", d + ".0e", d + ".000E", d + "e", d + "E", q("e,"), q("e x"), q("E]"), q("e:"), q("e/"), q("e 5"), q(".0e,e"), q("E}")}), "A"
+		})},
+		{"dangling-e-enum", replaceIn("enum", func(m *Member, r *hx.Rng) (string, string) {
+			d := strconv.Itoa(int(m.Enum))
+			return hx.PickS(r, []string{d + "e", d + "E", d + ".0e", d + ".00E"}), "A"
+		})},
+		// ... and what is NOT accepted: a sign after the marker (parseNumberParts fails), the marker at the
+		// end of the string form, a second marker, white space at the end of the string form
+		{"dangling-e-refused", func(n *Node, r *hx.Rng) (string, bool) {
+			ms, _ := n.members("u32")
+			es, _ := n.members("enum")
+			ms = append(ms, es...)
+			if len(ms) == 0 {
+				return "", false
+			}
+			m := ms[r.Intn(len(ms))]
+			d := strconv.FormatUint(uint64(m.U32), 10)
+			if strings.HasPrefix(m.FKind, "enum") {
+				d = strconv.Itoa(int(m.Enum))
+			}
+			q := func(b string) string { return "\"" + d + b + "\"" }
+			m.Val = raw(hx.PickS(r, []string{d + "e+", d + "e-", d + "E+", d + "E-", q("e"), q("E"), d + "ee", d + "eE", d + "e5e", d + ".e", q("e "), d + "e+0e", d + ".5e", q("e+,")}))
+			return "R", true
+		}},
 		{"u32-zero-forms", replaceIn("u32", func(m *Member, r *hx.Rng) (string, string) {
 			return hx.PickS(r, []string{"-0", "0", "0.0", "-0.0", "0e5", "0e99999999999", "-0e-5", `"-0"`, `"0.000"`, "0E+2147483648", "null"}), ""
 		})},
@@ -613,4 +652,52 @@ func Case(n *Node, r *hx.Rng, faulty bool, spaced bool) (text, tag, exp string) 
 		}
 	}
 	return n.Text(r, spaced), "valid", ""
+}
+
+// DanglingTexts: the dangling exponent marker on EVERY uint32 / enum field of both
+// schemas, bare and (for uint32) in the string form: kind 'K' (Keyset) or 'E'
+// (EncryptedKeyset), the text, the expectation.
+func DanglingTexts() (out []struct {
+	Kind, Text, Exp string
+}) {
+	add := func(kind, text, exp string) {
+		out = append(out, struct{ Kind, Text, Exp string }{kind, text, exp})
+	}
+	for _, e := range []string{"e", "E", ".0e"} {
+		add("K", `{"primaryKeyId":1`+e+`}`, "A")
+		add("K", `{"primary_key_id":7`+e+`,"key":[]}`, "A")
+		add("K", `{"key":[{"status":1`+e+`}]}`, "A")
+		add("K", `{"key":[{"keyId":42`+e+`}]}`, "A")
+		add("K", `{"key":[{"key_id":42`+e+` ,"status":2`+e+`}]}`, "A")
+		add("K", `{"key":[{"outputPrefixType":12`+e+`}]}`, "A")
+		add("K", `{"key":[{"output_prefix_type":-1`+e+`}]}`, "A")
+		add("K", `{"key":[{"keyData":{"keyMaterialType":3`+e+`,"typeUrl":"a","value":"AA=="}}]}`, "A")
+		add("E", `{"keysetInfo":{"primaryKeyId":1`+e+`}}`, "A")
+		add("E", `{"keyset_info":{"primary_key_id":5`+e+`,"key_info":[]}}`, "A")
+		add("E", `{"keysetInfo":{"keyInfo":[{"status":2`+e+`,"keyId":7`+e+` ,"outputPrefixType":1`+e+`}]}}`, "A")
+	}
+	for _, sfx := range []string{"e,", "e x", "e]", "e:", "e/", "e 5", "E}"} {
+		add("K", `{"primaryKeyId":"5`+sfx+`"}`, "A")
+		add("K", `{"key":[{"keyId":"1`+sfx+`"}]}`, "A")
+		add("E", `{"keysetInfo":{"primaryKeyId":"5`+sfx+`","keyInfo":[{"keyId":"9`+sfx+`"}]}}`, "A")
+	}
+	for _, bad := range []string{`1e+`, `1e-`, `"1e"`, `"1e "`, `1ee`, `1e5e`, `1.e`, `1.5e`, `4294967296e`, `-1e`} {
+		add("K", `{"primaryKeyId":`+bad+`}`, "R")
+		add("E", `{"keysetInfo":{"primaryKeyId":`+bad+`}}`, "R")
+	}
+	for _, bad := range []string{`"1e,"`, `1e+`, `1.5e`, `2147483648e`} {
+		add("K", `{"key":[{"status":`+bad+`}]}`, "R") // an enum string is a NAME
+	}
+	// the marker where no integer is read: refused whatever follows
+	add("K", `{"key":[{"keyData":{"typeUrl":1e}}]}`, "R")
+	add("K", `{"key":[1e]}`, "R")
+	add("K", `{"key":1e}`, "R")
+	add("K", `{"x":1e}`, "R")
+	add("K", `[1e]`, "R")
+	add("K", `1e`, "R")
+	add("K", `1e `, "R")
+	add("K", `{"primaryKeyId":1e`, "R")
+	add("K", `{"primaryKeyId":1e}x`, "R")
+	add("K", `{"primaryKeyId":1e"key":[]}`, "R")
+	return out
 }
